@@ -4,6 +4,7 @@ import (
 	"bytes"
 	"fmt"
 	"go/ast"
+	"go/parser"
 	"go/token"
 	"go/types"
 	"os"
@@ -65,6 +66,11 @@ type inliner struct {
 	declPkg map[*types.Func]*packages.Package
 	counter int
 	notes   []inlineNote
+	curPos      token.Pos // call site being expanded (scope for name resolution checks)
+	lastImports map[string]string
+	rejected    []string // expansions dropped because the package did not type-check with them
+	// addImports: file → name → path, imports an expansion needs in the caller's file
+	addImports map[string]map[string]string
 }
 
 func (in *inliner) content(filename string) []byte {
@@ -94,7 +100,7 @@ func (in *inliner) lineDirective(pos token.Pos) string {
 
 // planInline computes, for the loaded program, an overlay in which novel helpers are expanded. nil if nothing to do.
 func planInline(p *Prog, prev map[string][]byte, round int) (overlay map[string][]byte, overlayKeep map[string][]byte, notes []inlineNote) {
-	in := &inliner{p: p, overlay: prev, src: map[string][]byte{}, novel: map[*types.Func]*ast.FuncDecl{}, declPkg: map[*types.Func]*packages.Package{}, counter: round * 1000}
+	in := &inliner{p: p, overlay: prev, src: map[string][]byte{}, novel: map[*types.Func]*ast.FuncDecl{}, declPkg: map[*types.Func]*packages.Package{}, counter: round * 1000, addImports: map[string]map[string]string{}}
 	packages.Visit(p.Roots, nil, func(pk *packages.Package) {
 		if pk.PkgPath == modPath || strings.HasPrefix(pk.PkgPath, modPath+"/") {
 			in.pkgs = append(in.pkgs, pk)
@@ -155,7 +161,37 @@ func planInline(p *Prog, prev map[string][]byte, round int) (overlay map[string]
 				if !ok {
 					continue
 				}
-				fileEdits[fname] = append(fileEdits[fname], srcEdit{in.off(s.stmt.Pos()), in.off(s.end()), txt})
+				// validate this expansion on its own: the package must still type-check with it (and with what was
+				// accepted before); an expansion that does not is dropped, the call stays a call
+				ed := srcEdit{in.off(s.stmt.Pos()), in.off(s.end()), txt}
+				trialImports := map[string]string{}
+				for n, path := range in.addImports[fname] {
+					trialImports[n] = path
+				}
+				for n, path := range in.lastImports {
+					trialImports[n] = path
+				}
+				trial := map[string][]byte{}
+				for _, f2 := range pk.Syntax {
+					n2 := in.file(f2.Pos())
+					es := append([]srcEdit{}, fileEdits[n2]...)
+					imps := in.addImports[n2]
+					if n2 == fname {
+						es = append(es, ed)
+						imps = trialImports
+					}
+					if len(es) == 0 && len(imps) == 0 {
+						continue
+					}
+					trial[n2] = in.render(n2, f2, es, imps)
+				}
+				if err := in.checkPkg(pk, trial); err != nil {
+					in.rejected = append(in.rejected, fmt.Sprintf("%s at %s: %v", s.callee.Name(), p.Pos(s.stmt.Pos()), err))
+					p.InlineRejected = append(p.InlineRejected, in.rejected[len(in.rejected)-1])
+					continue
+				}
+				in.addImports[fname] = trialImports
+				fileEdits[fname] = append(fileEdits[fname], ed)
 				lastEnd = s.end()
 				expanded[s.calleeIdent] = true
 				if expandedInto[s.callee] == nil {
@@ -266,21 +302,94 @@ func planInline(p *Prog, prev map[string][]byte, round int) (overlay map[string]
 			if withDel {
 				es = append(es, delEdits[f]...)
 			}
-			src := in.content(f)
-			body := applyEdits(src, 0, es)
-			// tail
-			last := 0
-			for _, e := range es {
-				if e.end > last {
-					last = e.end
-				}
-			}
-			out[f] = []byte(body + string(src[last:]))
+			out[f] = in.render(f, in.fileAST(f), es, in.addImports[f])
 		}
 		return out
 	}
 	return build(true), build(false), in.notes
 }
+
+func (in *inliner) fileAST(fname string) *ast.File {
+	for _, pk := range in.pkgs {
+		for _, f := range pk.Syntax {
+			if in.file(f.Pos()) == fname {
+				return f
+			}
+		}
+	}
+	return nil
+}
+
+// render: the text of a file with the edits applied and the additional imports declared right after the package clause
+// (on the same line, so that no line number moves).
+func (in *inliner) render(fname string, file *ast.File, edits []srcEdit, imps map[string]string) []byte {
+	es := append([]srcEdit{}, edits...)
+	if len(imps) > 0 && file != nil {
+		var names []string
+		for n := range imps {
+			names = append(names, n)
+		}
+		sort.Strings(names)
+		txt := ""
+		for _, n := range names {
+			txt += fmt.Sprintf("; import %s %q", n, imps[n])
+		}
+		at := in.off(file.Name.End())
+		es = append(es, srcEdit{at, at, txt})
+	}
+	src := in.content(fname)
+	body := applyEdits(src, 0, es)
+	last := 0
+	for _, e := range es {
+		if e.end > last {
+			last = e.end
+		}
+	}
+	return []byte(body + string(src[last:]))
+}
+
+// checkPkg type-checks one package with some of its files replaced (imports come from the loaded program).
+func (in *inliner) checkPkg(pk *packages.Package, texts map[string][]byte) error {
+	fset := token.NewFileSet()
+	var files []*ast.File
+	for _, f := range pk.Syntax {
+		name := in.file(f.Pos())
+		var src interface{}
+		if b, ok := texts[name]; ok {
+			src = b
+		} else {
+			src = in.content(name)
+		}
+		pf, err := parser.ParseFile(fset, name, src, parser.SkipObjectResolution)
+		if err != nil {
+			return err
+		}
+		files = append(files, pf)
+	}
+	var first error
+	conf := types.Config{
+		Importer: importerFunc(func(path string) (*types.Package, error) {
+			if path == "unsafe" {
+				return types.Unsafe, nil
+			}
+			if ip := pk.Imports[path]; ip != nil && ip.Types != nil {
+				return ip.Types, nil
+			}
+			return nil, fmt.Errorf("import %q not available", path)
+		}),
+		Error: func(err error) {
+			if first == nil {
+				first = err
+			}
+		},
+	}
+	conf.Check(pk.PkgPath, fset, files, nil)
+	return first
+}
+
+type importerFunc func(path string) (*types.Package, error)
+
+func (f importerFunc) Import(path string) (*types.Package, error) { return f(path) }
 
 // inlinable: shape restrictions on the helper itself.
 func (in *inliner) inlinable(pk *packages.Package, fd *ast.FuncDecl, o *types.Func) bool {
@@ -294,7 +403,7 @@ func (in *inliner) inlinable(pk *packages.Package, fd *ast.FuncDecl, o *types.Fu
 	ok := true
 	topDefer := map[*ast.DeferStmt]bool{}
 	for _, st := range fd.Body.List {
-		if d, isD := st.(*ast.DeferStmt); isD && in.stableDefer(pk, fd, d) && sig.Results().Len() == 0 {
+		if d, isD := st.(*ast.DeferStmt); isD && in.stableDefer(pk, fd, d) {
 			topDefer[d] = true
 		}
 	}
@@ -819,11 +928,74 @@ func (in *inliner) typeString(t types.Type, pk *packages.Package, file *ast.File
 		ok = false
 		return other.Name()
 	})
+	// every name in the type must mean, at the call site, what it means at package level (a parameter called like a
+	// type shadows the type there)
+	if ok && in.curPos.IsValid() {
+		sc := pk.Types.Scope().Innermost(in.curPos)
+		var walk func(t types.Type, d int)
+		walk = func(t types.Type, d int) {
+			if d > 8 || !ok || sc == nil {
+				return
+			}
+			switch x := t.(type) {
+			case *types.Named:
+				if o := x.Obj(); o != nil && o.Pkg() == pk.Types {
+					if _, found := sc.LookupParent(o.Name(), in.curPos); found != types.Object(o) {
+						ok = false
+					}
+				} else if o != nil && o.Pkg() != nil {
+					for _, imp := range file.Imports {
+						if strings.Trim(imp.Path.Value, `"`) == o.Pkg().Path() {
+							name := o.Pkg().Name()
+							if imp.Name != nil {
+								name = imp.Name.Name
+							}
+							if _, found := sc.LookupParent(name, in.curPos); found != nil {
+								if _, isPkg := found.(*types.PkgName); !isPkg {
+									ok = false
+								}
+							}
+						}
+					}
+				}
+				if ta := x.TypeArgs(); ta != nil {
+					for i := 0; i < ta.Len(); i++ {
+						walk(ta.At(i), d+1)
+					}
+				}
+			case *types.Pointer:
+				walk(x.Elem(), d+1)
+			case *types.Slice:
+				walk(x.Elem(), d+1)
+			case *types.Array:
+				walk(x.Elem(), d+1)
+			case *types.Chan:
+				walk(x.Elem(), d+1)
+			case *types.Map:
+				walk(x.Key(), d+1)
+				walk(x.Elem(), d+1)
+			case *types.Signature:
+				for i := 0; i < x.Params().Len(); i++ {
+					walk(x.Params().At(i).Type(), d+1)
+				}
+				for i := 0; i < x.Results().Len(); i++ {
+					walk(x.Results().At(i).Type(), d+1)
+				}
+			case *types.Struct:
+				for i := 0; i < x.NumFields(); i++ {
+					walk(x.Field(i).Type(), d+1)
+				}
+			}
+		}
+		walk(t, 0)
+	}
 	return s, ok
 }
 
 // expand produces the replacement text of one call site.
-func (in *inliner) expand(pk *packages.Package, file *ast.File, s inlineSiteT) (string, bool) {
+func (in *inliner) expand(pk *packages.Package, file *ast.File, s inlineSiteT) (txtOut string, okOut bool) {
+	needImports := map[string]string{}
+	in.curPos = s.stmt.Pos()
 	fd := in.novel[s.callee]
 	hpk := in.declPkg[s.callee]
 	if hpk != pk {
@@ -845,6 +1017,28 @@ func (in *inliner) expand(pk *packages.Package, file *ast.File, s inlineSiteT) (
 		return "", false
 	}
 	okPkgs := true
+	callScope := pk.Types.Scope().Innermost(s.stmt.Pos())
+	ast.Inspect(fd.Body, func(n ast.Node) bool {
+		// names of the package, of imports and of the universe that the body uses must not be shadowed at the call site
+		id, ok := n.(*ast.Ident)
+		if !ok || callScope == nil {
+			return true
+		}
+		o := hpk.TypesInfo.Uses[id]
+		if o == nil {
+			return true
+		}
+		outer := o.Parent() == hpk.Types.Scope() || o.Parent() == types.Universe
+		if _, isPkgName := o.(*types.PkgName); isPkgName {
+			outer = false // checked against the caller's imports below
+		}
+		if outer {
+			if _, found := callScope.LookupParent(id.Name, s.stmt.Pos()); found != o {
+				okPkgs = false
+			}
+		}
+		return true
+	})
 	ast.Inspect(fd, func(n ast.Node) bool {
 		id, ok := n.(*ast.Ident)
 		if !ok {
@@ -864,7 +1058,36 @@ func (in *inliner) expand(pk *packages.Package, file *ast.File, s inlineSiteT) (
 				}
 			}
 			if !found {
-				okPkgs = false
+				// the caller's file does not import the package under that name: add the import, when the name is free
+				// in the file and the package
+				free := pk.Types.Scope().Lookup(id.Name) == nil
+				for _, imp := range file.Imports {
+					name := ""
+					if imp.Name != nil {
+						name = imp.Name.Name
+					} else if o := pk.TypesInfo.Implicits[imp]; o != nil {
+						name = o.Name()
+					}
+					if name == id.Name {
+						free = false
+					}
+				}
+				// a local of the caller with that name would shadow the package inside the expansion
+				if free {
+					ast.Inspect(file, func(m ast.Node) bool {
+						if x, isId := m.(*ast.Ident); isId && x.Name == id.Name {
+							if _, isPkgName := pk.TypesInfo.Uses[x].(*types.PkgName); !isPkgName {
+								free = false
+							}
+						}
+						return free
+					})
+				}
+				if free {
+					needImports[id.Name] = pn.Imported().Path()
+				} else {
+					okPkgs = false
+				}
 			}
 		}
 		return true
@@ -872,6 +1095,12 @@ func (in *inliner) expand(pk *packages.Package, file *ast.File, s inlineSiteT) (
 	if !okPkgs {
 		return "", false
 	}
+	defer func() {
+		in.lastImports = nil
+		if okOut {
+			in.lastImports = needImports // merged by the caller once the expansion has been validated
+		}
+	}()
 	// rename everything declared inside the helper
 	local := func(o types.Object) bool {
 		if o == nil || o.Pos() == token.NoPos {
@@ -997,13 +1226,41 @@ func (in *inliner) expand(pk *packages.Package, file *ast.File, s inlineSiteT) (
 			// a function literal handed to a parameter that the helper only ever calls as a statement is substituted for
 			// those calls (the literal's body runs exactly where the helper says f())
 			if lit, isLit := args[ai].(*ast.FuncLit); isLit && nm.Name != "_" {
-				if calls, okS := in.onlyCalledAsStmt(hpk, fd, hpk.TypesInfo.Defs[nm]); okS && lit.Type.Params.NumFields() == 0 && (lit.Type.Results == nil || lit.Type.Results.NumFields() == 0) && !hasLabel(lit.Body) {
-					for k, cs := range calls {
-						lbl := fmt.Sprintf("Bˑ%d%s", k, suffix)
-						litEdits = append(litEdits, srcEdit{in.off(cs.Pos()), in.off(cs.End()), "{ " + in.litBody(lit, lbl) + "\n}" + in.lineDirective(cs.End())})
+				if calls, okS := in.onlyCalledAsStmt(hpk, fd, hpk.TypesInfo.Defs[nm]); okS && (lit.Type.Results == nil || lit.Type.Results.NumFields() == 0) && !hasLabel(lit.Body) {
+					// the literal's own parameters become variables initialised with the arguments of f(…)
+					var lnames, ltypes []string
+					for _, lf := range lit.Type.Params.List {
+						ns := lf.Names
+						if len(ns) == 0 {
+							ns = []*ast.Ident{{Name: "_"}}
+						}
+						for _, ln := range ns {
+							lnames = append(lnames, ln.Name)
+							ltypes = append(ltypes, in.text(lf.Type))
+						}
 					}
-					ai++
-					continue
+					okArity := true
+					for _, cs := range calls {
+						if len(cs.X.(*ast.CallExpr).Args) != len(lnames) {
+							okArity = false
+						}
+					}
+					if okArity {
+						for k, cs := range calls {
+							lbl := fmt.Sprintf("Bˑ%d%s", k, suffix)
+							decl := ""
+							for j, a := range cs.X.(*ast.CallExpr).Args {
+								if lnames[j] == "_" {
+									decl += "_ = " + render(a.Pos(), a.End()) + "; "
+								} else {
+									decl += fmt.Sprintf("var %s %s = %s; _ = %s; ", lnames[j], ltypes[j], render(a.Pos(), a.End()), lnames[j])
+								}
+							}
+							litEdits = append(litEdits, srcEdit{in.off(cs.Pos()), in.off(cs.End()), "{ " + decl + in.litBody(lit, lbl) + "\n}" + in.lineDirective(cs.End())})
+						}
+						ai++
+						continue
+					}
 				}
 			}
 			fmt.Fprintf(&pre, "var %s %s = %s; ", name, pt, in.text(args[ai]))
@@ -1183,7 +1440,9 @@ func (in *inliner) expand(pk *packages.Package, file *ast.File, s inlineSiteT) (
 			edits = append(edits, srcEdit{in.off(d.Pos()), in.off(d.End()), ""})
 		}
 	}
-	if len(defers) > 0 && s.form != "stmt" {
+	// with results, the deferred calls run after the result expressions have been evaluated and assigned: only the
+	// forms that assign the results to variables first can say that
+	if len(defers) > 0 && s.form != "stmt" && s.form != "assign" && s.form != "ifinit" {
 		return "", false
 	}
 	deferredAt := func(pos token.Pos) string {
@@ -1282,6 +1541,9 @@ func (in *inliner) expand(pk *packages.Package, file *ast.File, s inlineSiteT) (
 						bad = true
 						return false
 					}
+					if dq := deferredAt(ret.Pos()); dq != "" {
+						txt += "; " + dq
+					}
 					switch nilness {
 					case "nil":
 						if elseTxt != "" {
@@ -1310,6 +1572,9 @@ func (in *inliner) expand(pk *packages.Package, file *ast.File, s inlineSiteT) (
 				} else {
 					bad = true
 					return false
+				}
+				if dq := deferredAt(ret.Pos()); dq != "" {
+					txt += "; " + dq
 				}
 				if !isLast {
 					txt += brk
@@ -1438,7 +1703,7 @@ func (in *inliner) onlyCalledAsStmt(pk *packages.Package, fd *ast.FuncDecl, para
 	accounted := map[*ast.Ident]bool{}
 	ast.Inspect(fd.Body, func(n ast.Node) bool {
 		if es, ok := n.(*ast.ExprStmt); ok {
-			if call, isC := es.X.(*ast.CallExpr); isC && len(call.Args) == 0 {
+			if call, isC := es.X.(*ast.CallExpr); isC && !call.Ellipsis.IsValid() {
 				if id, isId := call.Fun.(*ast.Ident); isId && pk.TypesInfo.Uses[id] == param {
 					calls = append(calls, es)
 					accounted[id] = true
